@@ -6,6 +6,7 @@ package vfe2e
 import (
 	"bytes"
 	"fmt"
+	"net"
 	"os"
 	"os/exec"
 	"path/filepath"
@@ -48,15 +49,26 @@ type Proxy struct {
 
 var ipSeq atomic.Uint32
 
-// NextIPBlock returns a fresh 127.B.C.0/24 prefix ("127.B.C.") unique within this run:
-// B depends on the shard/process, C on a counter.
+// NextIPBlock returns a fresh 127.B.C.0/24 prefix ("127.B.C.") that no other harness process uses:
+// the block is claimed by binding (and keeping) a UDP lock socket on 127.B.C.254:49999.
 func NextIPBlock() string {
-	n := ipSeq.Add(1)
 	pid := uint32(os.Getpid())
-	b := 64 + pid%180
-	c := (pid/180*37 + n) % 250
-	return fmt.Sprintf("127.%d.%d.", b, c+1)
+	for try := 0; try < 2000; try++ {
+		n := ipSeq.Add(1)
+		b := 64 + (pid+n/250)%180
+		c := (pid/180*37+n)%250 + 1
+		block := fmt.Sprintf("127.%d.%d.", b, c)
+		l, err := net.ListenPacket("udp", block+"254:49999")
+		if err != nil {
+			continue
+		}
+		blockLocks = append(blockLocks, l) // held until the process exits
+		return block
+	}
+	panic("vfe2e: no free 127.x.y.0/24 block")
 }
+
+var blockLocks []net.PacketConn
 
 type ProxyOpts struct {
 	Race       bool
